@@ -15,8 +15,50 @@ use crate::common::{is_thorough, ExpSpec};
 pub struct C12;
 
 impl Checker for C12 {
-    fn check(&self, _cfg: &Cfg, ops: &[Op], ex: &Exec) -> Vec<(String, String)> {
-        o::o_dirty("C12", ops, ex)
+    fn check(&self, cfg: &Cfg, ops: &[Op], ex: &Exec) -> Vec<(String, String)> {
+        let mut v = o::o_dirty("C12", ops, ex);
+        // One storage fault during an early modifying call, then the session goes on: whatever the failed call
+        // left behind, once a later call has changed the volume the dirty bit must be on the disk.
+        let n = ops.len();
+        let explored = n.saturating_sub(self.prefix_len(cfg));
+        let mutating = matches!(
+            ops.last(),
+            Some(Op::CreateFile { .. } | Op::CreateDir { .. } | Op::Remove { .. } | Op::Rename { .. } | Op::Write { .. } | Op::WriteAll { .. } | Op::Truncate { .. })
+        );
+        let max_explored = if std::env::var("VERIF_TIER").map_or(false, |t| t == "thorough") { 2 } else { 1 };
+        // (volumes that are dirty at mount already carry the bit)
+        if v.is_empty() && mutating && (1..=max_explored).contains(&explored) && ex.panic.is_none() && ex.status_byte_at_mount & 1 == 0 {
+            let follow = Op::CreateFile { base: harness::sess::DirRef::Root, path: "after-fault.txt".into(), keep: None };
+            let mut ops2 = ops.to_vec();
+            ops2.push(follow);
+            for k in 1..=ex.calls_last {
+                let plan = harness::sess::Plan { fault: Some((k, 0x00FC_0000 + k as u32)), fault_op: Some(n - 1), ..self.plan() };
+                let fx = harness::sess::run(cfg, &ops2, &plan);
+                if fx.panic.is_some() || fx.fired_early.is_none() {
+                    continue;
+                }
+                // only the follow-up call's own effect is judged: it succeeded, so the volume changed
+                if matches!(fx.outs.last(), Some(Ok(_))) {
+                    for (sig, msg) in o::o_dirty("C12", &ops2, &fx) {
+                        let sig = sig.replace("C12/", "C12/after-storage-fault/");
+                        if !v.iter().any(|(s, _)| *s == sig) {
+                            v.push((sig, format!("{msg} [device call {k} of {:?} failed, then {:?} succeeded]", ops[n - 1], ops2[n])));
+                        }
+                    }
+                }
+            }
+        }
+        v
+    }
+}
+
+impl C12 {
+    fn prefix_len(&self, cfg: &Cfg) -> usize {
+        if cfg.name.ends_with("-pop") {
+            populate_prefix(512).len()
+        } else {
+            0
+        }
     }
 }
 
